@@ -19,7 +19,8 @@ PROPERTY = "C08"
 ASSUMPTIONS = [
     "thorough tier: three calls deep with request lists of length <=2, <=1, <=1 (a full <=2,<=2,<=1 search is about 1e8 transitions and was not completed)",
     "temperatures requested for insertion come from a finite alphabet derived from the table "
-    "(above/below the range, 1/4 1/2 3/4 of every interval, every existing row, existing +-0.4 tol and +-3 tol)",
+    "(1, 2 and 4.5 steps above/below the range, 1/4 1/2 3/4 of every interval, every existing row, existing +-0.4 / +-0.8 / +-3 tol); a request may also be the table's own temperature column (the live array or a reversed view of it)",
+    "cumulative enthalpy curve = every column whose label NAME starts with H_ in the ProblemTableLabel enumeration (not the library's own list of interpolated columns); one initial table has all of them populated",
     "initial tables (one of them with a 0.5 mK interval) are built by the real problem_table_algorithm / get_process_heat_cascade / get_additional_GCCs from lattice streams, "
     "plus variants with only some columns populated (others NaN)",
     "row 0's interval width is not constrained (it has no row above; an existing repository test pins a non-zero value there)",
@@ -67,6 +68,7 @@ def initial_tables(inst, tier):
         out.append({"streams": s, "form": "pta"})
     out.append({"streams": sets[1], "form": "cascade+gcc"})
     out.append({"streams": sets[2], "form": "cascade+gcc"})
+    out.append({"streams": sets[1], "form": "all-H"})
     out.append({"streams": sets[0], "form": "nan:T+H_net"})
     out.append({"streams": sets[1], "form": "nan:T+composites"})
     if tier == "thorough":
@@ -80,9 +82,15 @@ def build(desc):
     PT = m["PT"]
     hot, cold = _collections([tuple(s) for s in desc["streams"]])
     form = desc["form"]
-    if form == "pta" or form.startswith("nan:"):
+    if form == "pta" or form.startswith("nan:") or form == "all-H":
         pt = m["create_problem_table_with_t_int"](hot + cold, True)
         m["problem_table_algorithm"](pt, hot, cold)
+        if form == "all-H":
+            # every cumulative column the table can hold carries a curve (a different zig-zag in each), whoever fills it in practice
+            n = len(pt)
+            for k, mem in enumerate(mm for mm in PT if mm.name.startswith("H_")):
+                if np.isnan(pt.col[mem.value]).all():
+                    pt.col[mem.value] = np.array([float((k * 7 + i * 13) % 11) for i in range(n)])
         if form == "nan:T+H_net":
             pt = m["ProblemTable"]({PT.T.value: pt.col[PT.T.value].tolist(), PT.H_NET.value: pt.col[PT.H_NET.value].tolist()})
         elif form == "nan:T+composites":
@@ -105,7 +113,21 @@ def candidate_temps(T0: np.ndarray, inst):
         c.append(b + 0.5 * (a - b) + 0.4 * TOL)       # a request within tolerance of another REQUESTED temperature
     for t in T0:
         c.extend([t, t + 0.4 * TOL, t - 0.4 * TOL, t + 0.8 * TOL, t - 0.8 * TOL, t + 3 * TOL, t - 3 * TOL])
+    c.extend([T0[0] + 4.5 * step, T0[-1] - 4.5 * step])      # a third temperature beyond each end, unequally spaced (appended last: indices -2, -1)
     return [float(x) for x in c]
+
+
+OWN, OWN_REVERSED = -101, -102
+
+
+def request_of(ev, cands, pt, idx_T):
+    """The argument passed to insert_temperature_interval and the list of temperatures it denotes."""
+    if ev[0] == OWN:
+        return pt.col["T"], [float(t) for t in pt.data[:, idx_T]]
+    if ev[0] == OWN_REVERSED:
+        return pt.col["T"][::-1], [float(t) for t in pt.data[:, idx_T]][::-1]
+    L = [cands[i] for i in ev]
+    return (L if len(L) > 1 else L[0]), L        # a single float is accepted as well
 
 
 def events(cands, max_len):
@@ -116,15 +138,26 @@ def events(cands, max_len):
     for n in range(1, max_len + 1):
         yield from itertools.product(range(len(cands)), repeat=n)
     if max_len >= 2:
-        n_int = (len(cands) - 4 - 7) // 11     # 4 outside + 4 per interval + 7 per row (rows = intervals + 1)
+        n_int = (len(cands) - 4 - 7 - 2) // 11     # 4 outside + 4 per interval + 7 per row (rows = intervals + 1) + 2 far outside
         for k in range(n_int):
             four = [4 + 4 * k + j for j in range(4)]
             for trip in itertools.product(four, repeat=3):
                 if len(set(trip)) >= 2:
                     yield trip
-        mixed = [0, 2] + [4 + 4 * k + 1 for k in range(n_int)] + [3, 1, 0, 5] + list(range(4 + 4 * n_int, len(cands), 7))
+        mixed = [0, 2] + [4 + 4 * k + 1 for k in range(n_int)] + [3, 1, 0, 5] + list(range(4 + 4 * n_int, len(cands) - 2, 7))
         yield tuple(mixed)
         yield tuple(reversed(mixed))
+        # three temperatures beyond the same end in one call (unequal spacing), in every order and with repetition; both ends at once
+        far = len(cands)
+        for side in ((0, 1, far - 2), (2, 3, far - 1)):
+            for trip in itertools.product(side, repeat=3):
+                if len(set(trip)) >= 2:
+                    yield trip
+        yield (far - 2, 0, 1, 2, 3, far - 1)
+        yield (1, far - 1, far - 2, 3, 0, 2)
+        # the request IS the table's own temperature column (the live array, not a copy), and a reversed view of it
+        yield (OWN,)
+        yield (OWN_REVERSED,)
 
 
 # ----- reference model ---------------------------------------------------------
@@ -136,7 +169,8 @@ class Ref:
         self.idx = dict(pt.col_index)
         self.T0 = pt.data[:, self.idx["T"]].copy()
         self.data0 = pt.data.copy()
-        self.interp_cols = [c for c in m["INTERPOLATION_KEYS"] if c in self.idx]
+        # the cumulative enthalpy curves: every column label whose enumeration NAME starts with H_ (independent of the library's own list)
+        self.interp_cols = [mem.value for mem in self.PT if mem.name.startswith("H_") and mem.value in self.idx]
         self.pairs = [p for p in m["HEAT_CAPACITY_PAIRS"]]
         self.dT_populated = not np.isnan(self.data0[:, self.idx[self.PT.DELTA_T.value]]).any()
         self.scale = max(1.0, float(np.nanmax(np.abs(self.data0[:, [self.idx[c] for c in self.interp_cols]]))) if self.interp_cols else 1.0)
@@ -252,11 +286,10 @@ def explore(tier, inst, shard, nshards):
                         work += 1
                         if work % nshards != shard:
                             continue
-                    L = [cands[i] for i in ev]
                     new_pt = copy.deepcopy(pt)
                     n_before = len(new_pt)
                     T_before = new_pt.data[:, ref.idx["T"]].copy()
-                    arg = L if len(L) > 1 else L[0]  # a single float is accepted as well
+                    arg, L = request_of(ev, cands, new_pt, ref.idx["T"])
                     returned = new_pt.insert_temperature_interval(arg)
                     res.transitions += 1
                     exp_new = ref.expected_added(present, L)
@@ -286,7 +319,7 @@ def explore(tier, inst, shard, nshards):
                         res.nt_keys.add(k)
                     res.outcomes.add(jhash([round(float(x), 6) for x in new_pt.data[:, ref.idx["T"]]]))
                     if len(res.samples) < 2:
-                        res.samples.append({"table": desc, "history": [[cands[i] for i in e] for e in h2], "rows_after": len(new_pt)})
+                        res.samples.append({"table": desc, "history": [[cands[i] if i >= 0 else "own T column" for i in e] for e in h2], "rows_after": len(new_pt)})
                     if not problems and level + 1 < depth and len(ev) <= len_by_depth[level]:
                         nxt.append((h2, new_pt, present2))      # quick: states reached by a long request are checked but not expanded
             frontier = nxt
@@ -300,11 +333,11 @@ def replay(case, res: Result):
     cands = candidate_temps(ref.T0, inst)
     present = list(ref.T0)
     for ev in case["history"]:
-        L = [cands[i] for i in ev]
         n_before = len(pt)
         T_before = pt.data[:, ref.idx["T"]].copy()
         before_key = key_of(pt)
-        returned = pt.insert_temperature_interval(L if len(L) > 1 else L[0])
+        arg, L = request_of(ev, cands, pt, ref.idx["T"])
+        returned = pt.insert_temperature_interval(arg)
         res.transitions += 1
         exp_new = ref.expected_added(present, L)
         present = present + exp_new
@@ -323,7 +356,7 @@ SUBCHECKS = {
              "outcomes = distinct temperature columns reached",
         explore=explore,
         replay=replay,
-        bound=lambda tier: "depth 2 calls, request lists of length <=2 then <=1, plus at every level all ordered triples of each interval's 4 interior candidates and two mixed long requests (not expanded further)" if tier == "quick"
+        bound=lambda tier: "depth 2 calls, request lists of length <=2 then <=1, plus at every level all ordered triples of each interval's 4 interior candidates, all ordered triples of the 3 candidates beyond either end, four mixed long requests and the table's own temperature column as the request (live array and reversed view) (not expanded further)" if tier == "quick"
         else "depth 3 calls, request lists of length <=2, <=1, <=1, plus the long requests at every level (not expanded further)",
     )
 }
